@@ -33,6 +33,64 @@ CLAIMED = {
         design="5 C13", engine="astfacts+rules"),
 }
 
+CLAIMED.update({
+    "C03": dict(
+        level="other",
+        technique="guard-dominance, index-discipline and symbolic margin rules (syntax tree + exact algebra); lane/bounds dataflow for the kernels",
+        text=("Decides necessary structural conditions for memory safety on every history: the two asserts dominate every unsafe kernel and use the table's own "
+              "dimensions; all loads of the 7 kernels stay inside wave[index..index+length) and the packed rows; unchecked per-channel accesses are indexed by the "
+              "enumerate index of a never-resized mask; fixed-output writes are bounded by the validated chunk size; validate_buffers accepts exact-size buffers; "
+              "polynomial windows match their blend functions; fixed-output input provisioning covers the closed-form read position in every calling context; "
+              "fixed-input loop margin and history length cover the admissible steps (today two genuine defects per fixed-input type are reported as KNOWN-FINDING). "
+              "Run-time position arithmetic beyond these margins (ramp overshoot, integer overflow) is NOT decided."),
+        note="Trusted: syn parser, sympy, intrinsic lane table. Not decided: value-dependent index bounds outside the margin rules; oversampling_factor 1 with Cubic/Quadratic.",
+        design="5 C03", engine="astfacts+rules"),
+    "C05": dict(
+        level="other",
+        technique="forward substitution + exact algebra on buffer-carry offsets (syntax tree)",
+        text=("Decides the buffer-carry mechanism that makes the stream independent of chunking: the history shift uses the size of the chunk that was loaded last "
+              "(immutable, or refreshed from the loaded size and written nowhere else, or shift-after-load), the carried position is rebased by exactly the frames "
+              "appended, one consistent pre-roll (shift length = load start = read base in all 18 arms = allocation term), and frame conservation / remainder parking "
+              "in the two buffered FFT adapters. Equality of output streams up to rounding is NOT decided."),
+        note="Trusted: syn parser, slice copy semantics, sympy.",
+        design="5 C05", engine="astfacts+rules"),
+    "C06": dict(
+        level="other",
+        technique="induction-variable closed forms (scalar evolution) and exact rational algebra on the syntax tree",
+        text=("Decides: accepted ratio changes store target (and current iff !ramp) and every call ends with ratio := target; in all 18 arms t_ratio and idx advance "
+              "exactly once per frame before use with the documented increment; for fixed-output types the closed form gives t_N = 1/target after exactly chunk_size "
+              "frames with linear (monotone, in-between) spacing for every ratio pair; every site that recomputes needed_input_size covers last_index + closed-form "
+              "advance + kernel reach in its calling context (ramp on/off, chunk-size change, constructor). Fixed-input ramp overshoot is NOT decided."),
+        note="Trusted: syn parser, sympy rational simplification.",
+        design="5 C06", engine="astfacts+rules"),
+    "C08": dict(
+        level="other",
+        technique="exact polynomial algebra over Q on the literal coefficient tables + window-selection rules (syntax tree)",
+        text=("Decides for every input that interp_septic/quintic/cubic/lin are the unique Lagrange interpolants on the consecutive integer nodes derived from the code "
+              "(20 identities + degree bounds pin all 40 coefficients), that each of the 10 arms feeds its blend function the window floor(idx)-k..+n with k the position "
+              "of node 0 and x = idx - floor(idx), that Nearest reads floor(idx), and that FixedIn/FixedOut arms agree. 'To rounding' and the sinusoid bound are NOT decided."),
+        note="Trusted: syn parser, sympy exact arithmetic. Stepping by 1/ratio: C06.",
+        design="5 C08", engine="astfacts+rules"),
+    "C10": dict(
+        level="other",
+        technique="field-by-field comparison of reset() with the constructor by forward substitution and bit-exact normal forms; range-coverage dataflow for FFT scratch",
+        text=("Decides that every field written by any &mut self method (state fields are computed, 37 today) is restored by reset() to an expression bit-identical to its "
+              "constructor initialiser over the immutable configuration (containers: same fill value, never resized), that reset leaves configuration untouched, that the "
+              "nested FFT work buffers are overwritten before being read in every unit (so hold no state), and that getters take &self. With immutable configuration this "
+              "implies observational equivalence with a fresh instance for all histories."),
+        note="Trusted: syn parser; realfft overwrites its whole output and ignores scratch contents.",
+        design="5 C10", engine="astfacts+rules"),
+    "C15": dict(
+        level="other",
+        technique="lane-provenance dataflow (abstract interpretation over a multiset-of-products domain) on the kernel sources",
+        text=("Decides for all waveforms, indices and sub-indices that each of the 7 kernels (AVX/SSE/NEON x f32/f64 + scalar) accumulates exactly the products "
+              "wave[index+i]*sinc[i], i < 8*floor(N/8), each once, lane i with lane i, and that every accumulator lane reaches the result exactly once - i.e. the scalar "
+              "kernel's sum up to association order; reads are confined to wave[index..index+length); dispatch tries AVX>SSE>NEON>scalar with identical arguments. "
+              "The ulp bound itself is NOT decided; NEON is analysed from source only."),
+        note="Trusted: syn parser and the enumerated intrinsic transfer table (unaligned loads only; unknown intrinsics fail closed).",
+        design="5 C15", engine="astfacts+rules"),
+})
+
 PENDING_REASON = "decidable clauses not built yet (implementation in progress, see DESIGN.md section 9)"
 NA = {}
 
